@@ -250,6 +250,15 @@ def tasks(tier, seed):
                                            n_per_utility=int(rng.choice([1, 3, 5])),
                                            n_unlabelled=(4 if (i + j) % 2 == 0 else 0)),
                                 config=dict(csv=True, hdf5=True)))
+    # boundary cluster size (a leaf with exactly two reference cells under a two-leaf parent: the
+    # smallest cluster that still gets markers) and a reference spread over several h5ad files read
+    # by fewer workers than files
+    compose.append(dict(seed=int(seed) + 61, world=dict(taxonomy='d3_bal', n_query=8, cells_per_leaf={'c0': 2, 'c3': 2},
+                                                        n_per_utility=3), config=dict()))
+    compose.append(dict(seed=int(seed) + 62, world=dict(taxonomy='d2_bal', n_query=8, n_ref_files=3, n_processors=1,
+                                                        n_unlabelled=3, ref_encoding='csr'), config=dict()))
+    compose.append(dict(seed=int(seed) + 63, world=dict(taxonomy='d3_chain', n_query=8, n_ref_files=3, n_processors=2,
+                                                        cells_per_leaf={'c2': 2}), config=dict()))
     if not quick:
         for r in range(12):
             compose.append(dict(seed=int(seed) + 100 + r, world=dict(
@@ -262,8 +271,15 @@ def tasks(tier, seed):
         factors = dict(bootstrap_factor=[0.3, 0.5, 0.8, 1.0], bootstrap_iteration=[1, 10, 300], chunk_size=[2, 40],
                        n_processors=[1, 2], flatten=[False, True], drop_level=[None] + list(h[:-1]), copies=[1, 2],
                        n_extra=[0, 3], rng_seed=[5, 77])
+        extra = {}
+        if s == 'd3_bal':
+            extra = dict(cells_per_leaf={'c0': 2, 'c3': 2})
+        elif s == 'd2_bal':
+            extra = dict(n_ref_files=3, n_processors=1)
+        elif s == 'd3_chain':
+            extra = dict(n_ref_files=2, n_processors=1, cells_per_leaf={'c2': 2})
         cent.append(dict(seed=int(seed) + i, world=dict(taxonomy=s, encoding=encs[(i + seed) % 3], n_query=6,
-                                                        n_unlabelled=(5 if i % 2 == 0 else 0)),
+                                                        n_unlabelled=(5 if i % 2 == 0 else 0), **extra),
                          cases=c01.covering_sample(factors, 8 if quick else 30, rng)))
     return compose, cent
 
@@ -271,7 +287,7 @@ def tasks(tier, seed):
 def run(tier='quick', seed=0, jobs=1):
     seed = int(seed or 0)
     row1 = fx.new_row(ENTRY, 'seeded-random',
-                      "9 taxonomy shapes" + ("" if tier == 'quick' else " x 3 reference/query encoding pairs + 12 random trees") +
+                      "11 taxonomy shapes + a leaf with exactly two reference cells + a reference spread over 2-3 files read by 1-2 workers" + ("" if tier == 'quick' else " x 3 reference/query encoding pairs + 12 random trees") +
                       ", reference 4-9 cells per leaf x 18-30 genes stored dense/csr/csc, n_per_utility {1,3,5}; stages chained "
                       "through their files; csv + hdf5 outputs requested",
                       [CL_STAGES, CL_STATS, CL_REFM, CL_TABLE])
